@@ -144,7 +144,7 @@ def check_c01(ctx):
     nlog = op.oplog(ctx, "C01")
     # (S) operator level: behaviours of spec/Operator with failing and retried Synchronizations of grouped bindings: every
     # monitor of a combined Synchronization is unlocked by the successful retry, and no Event task exists before that
-    ne2e, e2e_stats = op.e2e(ctx, ("C01/",), ["B", "C", "G", "K", "L"], ctx.pick(25, 250), depth=50, nrandom=ctx.pick(6, 40))
+    ne2e, e2e_stats = op.e2e(ctx, ("C01/",), ["B", "C", "G", "K", "L"], ctx.pick(15, 250), depth=50, nrandom=ctx.pick(4, 40))
     ctx.log("operator level: %d behaviours replayed on the real operator (Synchronization -> unlock -> Events): %s" % (ne2e, e2e_stats))
     ctx.cov["operator_level_replay"] = e2e_stats
     nlog += ne2e
